@@ -1769,18 +1769,24 @@ def scen_C16(ctx):
                 'the largest file (so that each of the three files and each chunk is in turn the first refused write), flush/sync_all/sync_data is '
                 'called, the limit is lifted, everything is read back (memory view must equal the ideal map), a second flush must succeed and the '
                 'files must then equal the model image byte for byte; an Ok under the limit must mean the snapshot is complete (checked with a snap '
-                'right after); an error when every file fits below the limit is flagged; distinct = distinct (history, threshold) pairs')
+                'right after); an error when every file fits below the limit is flagged; `table first`: small key and value files with a 2048/8192-bucket table and a limit between them, so that the table file - the last one written - is the first refused write of flush, sync_all and sync_data each; distinct = distinct (history, threshold) pairs')
     ladder = [0, 1, 100, 128, 129, 192, 193, 200, 256, 400, 1000, 2000, 4095, 4096, 4097, 5000, 8192, 8193, 12288, 16384, 20000, 40000, 100000,
               131071, 131072, 131073, 200000, 262144, 300000, 1 << 20, 1 << 24]
 
     def one(a):
-        i, h, L = a
+        i, h, L = a[:3]
         g = G.G(ctx.seed, 'C16', h)
         kt = G.KTS[h % 5]
         ks = g.key_universe(kt, 8)
         sy = ['flush', 'syncall', 'syncdata'][i % 3]
         big = 0.15 if h % 2 else 0.0
-        pre = ['db d0 db', 'map m0 d0 %s m %s' % (kt, g.params(n=g.rng.choice([1, 8, 64, 2048, 8192])))] + g.hist(kt, ctx.scale(40, 150), keys=ks, big=big, reads=0.05)
+        if len(a) > 3:
+            # `table first`: small key and value files, a table file larger than the limit, so that the TABLE file is the
+            # first (and only) refused write of each of the three calls (the files are written in the order val, key, htx)
+            sy, n = a[3], a[4]
+            pre = ['db d0 db', 'map m0 d0 %s m %s' % (kt, g.params(n=n))] + g.hist(kt, 12, keys=ks, big=0.0, reads=0.0)
+        else:
+            pre = ['db d0 db', 'map m0 d0 %s m %s' % (kt, g.params(n=g.rng.choice([1, 8, 64, 2048, 8192])))] + g.hist(kt, ctx.scale(40, 150), keys=ks, big=big, reads=0.05)
         if h % 3 == 0:
             pre += ['flush m0'] + g.hist(kt, 10, keys=ks, big=big, reads=0.0)      # some chunks already clean
         # after the limit is lifted the same call must succeed and make everything durable: the files are checksummed and
@@ -1810,6 +1816,10 @@ def scen_C16(ctx):
     for h in range(nh):
         for L in (ladder if not ctx.quick else ladder[h % 2::2]):
             cases.append((len(cases), h, L))
+    for sy in ('flush', 'syncall', 'syncdata'):
+        for n, Ls in ((2048, (6000, 12288, 16700)), (8192, (8192, 40000, 66600))):
+            for L in (Ls if not ctx.quick else Ls[1:]):
+                cases.append((len(cases), 100 + len(cases) % 7, L, sy, n))
     parallel(one, cases)
 
 
